@@ -139,7 +139,7 @@ let hi2 = lazy (read_bin (!romdir ^ "/HI_ROM_V2.bin"))
 let do_op (o : op) (h : hstate) = run_op (Lazy.force lo1) (Lazy.force hi1) (Lazy.force lo2) (Lazy.force hi2) o h
 
 (* ---- token -> op -------------------------------------------------------- *)
-type tok = Op of op | Run of int | Snap | Final | Note
+type tok = Op of op | Run of int | Snap | Final | Note | LoadX of z * z list
 
 let parse_tok (t : string) : tok =
   let f = Array.of_list (String.split_on_char ':' t) in
@@ -151,6 +151,7 @@ let parse_tok (t : string) : tok =
   | "oh" -> Op (OpOh (a 1)) | "ow" -> Op (OpOw (a 1))
   | "wb" -> Op (OpWb (a 1, a 2)) | "wh" -> Op (OpWh (a 1, a 2)) | "ww" -> Op (OpWw (a 1, a 2))
   | "ld" -> Op (OpLoad (a 1, hexbytes f.(2)))
+  | "lx" -> LoadX (a 1, hexbytes f.(2))
   | "r" -> Op (OpSetReg (a 1, a 2))
   | "st" -> Op OpStep
   | "sx" -> Op OpStepX
@@ -273,6 +274,26 @@ let run_case (toks : string list) : string =
                  done
                with Exit -> ());
               h := !cur; emit !res
+            | LoadX (addr, bytes) ->
+              (* Mem::load stores byte by byte and panics at the first byte outside the vector: after the panic the
+                 bytes that fit are in memory (a load into the DUART or the mouse panics before storing anything) *)
+              let (h', ob) = do_op (OpLoad (addr, bytes)) hs in
+              (match ob with
+               | ObPanic ->
+                 let ai = int_of_z addr in
+                 let room =
+                   if ai < 0x20000 then 0x20000 - ai
+                   else if ai >= 0x500000 && ai < 0x500002 then 0x500002 - ai
+                   else if ai >= 0x600000 && ai < 0x602000 then 0x602000 - ai
+                   else if ai >= 0x700000 && ai < 0x800000 then 0x800000 - ai
+                   else 0 in
+                 let rec take n l = if n <= 0 then [] else (match l with [] -> [] | x :: t -> x :: take (n - 1) t) in
+                 if room > 0 then begin
+                   let (h2, ob2) = do_op (OpLoad (addr, take room bytes)) hs in
+                   (match ob2 with ObOk -> h := h2 | _ -> h := Some hs)
+                 end else h := Some hs;
+                 emit "p"
+               | _ -> h := h'; emit (obs_str "ld" ob))
             | Note -> emit "-"
             | Snap -> emit (duart_str hs.hm.mbus.duart_)
             | Final -> emit (String.map (fun c -> if c = ' ' then ';' else c) (final_state hs.hm)))) toks
